@@ -2,12 +2,12 @@
 # maintenance: run every claimed check in the thorough tier, evidence/replays redirected (VERIF_OUT) so that the committed quick evidence stays;
 # one summary line per property in $1 (default /tmp/thorough.log)
 cd "$(dirname "$0")/.."
-LOG=${1:-/tmp/thorough.log}
+LOG=/tmp/thorough.log   # usage: tools/run_thorough.sh [--write-ledger]
 export VERIF_OUT=/tmp/thorough_out
 mkdir -p $VERIF_OUT
 for P in $(.venv/bin/python -c "import json;print(' '.join(c['property_id'] for c in json.load(open('MANIFEST.json'))['checks']))"); do
   s=$(date +%s)
-  nice -n 5 ./check $P --tier thorough > $VERIF_OUT/$P.log 2>&1
+  nice -n 5 ./check $P --tier thorough "$@" > $VERIF_OUT/$P.log 2>&1
   rc=$?
   echo "$P rc=$rc $(( $(date +%s) - s ))s :: $(tail -n 1 $VERIF_OUT/$P.log | cut -c1-220)" | tee -a $LOG
 done
